@@ -126,7 +126,7 @@ meta("C16",
 meta("C18",
      rule="(a) generated valid documents built at levels 0,1,2,3: written text (textually for canonical spelling, canonically for free spelling) and full observation must agree; (b) hostile documents and mutants built at all four levels: acceptance must be monotone (accepted at k => accepted at every lower level); (c) assignment scripts: 24 positional fields/tags x valid and invalid values x levels 0-3 x set()/attribute, followed by validate_field, validate, field_to_s, get, str: invalid reported at the assignment at level 3, at the latest on write at level 2, by explicit validation at every level; valid never rejected; non-trivial = document with delayed-parsing datatypes, acceptance differing between levels, or any assignment; distinct by (document | field, value, level, way) Sequences on a new tag: value(s) unrepresentable in their own default datatype (refused at level 3), then a representable value of another class, which must be accepted with its documented default datatype.",
      budget={"quick": 25, "thorough": 360},
-     min_counts={"quick": {"seq_valid_after_refused": 60, "header_add_assignments": 300, "assignments_on_lines_created_by_a_gfa": 300, "value_object_assignments": 30, "level_builds": 4000, "monotonicity_builds": 4000, "assignments": 4000, "invalid_validated": 1200, "assign_cells": 250}})
+     min_counts={"quick": {"seq_valid_after_refused": 60, "header_add_assignments": 300, "header_add_valid_after_refused": 30, "assignments_on_lines_created_by_a_gfa": 300, "value_object_assignments": 30, "level_builds": 4000, "monotonicity_builds": 4000, "assignments": 4000, "invalid_validated": 1200, "assign_cells": 250}})
 
 meta("C14",
      rule="GFA1 (70%) and GFA2 graphs of 2-8 segments with M/=-only or '*' overlaps: backbone chains of 2-5 segments in every mix of orientations, rings, plus branches, self-links, hairpins on chain ends and inside, chains sharing junctions, with and without sequences; linear_paths() is compared with the independent chain finder (modulo reversal / ring rotation); after merge_linear_paths(): spelled sequence (orientation taken from the path gfapy reported), length, exact multiset of outward dovetails re-attached to the right ends, untouched segments, component partition, closed/symmetric object graph, idempotence; non-trivial = a chain of >=3 segments with mixed exit ends 30% of the merges use enable_tracking=True (the '^' marks in merged names are stripped before comparison). Graphs built at validation levels 0-3.",
